@@ -10,6 +10,30 @@ import traceback
 from . import core
 
 
+def _watchdog(ck, a):
+    """A check that does not terminate must not look like anything else: after a generous wall-clock limit (far above
+    the slowest observed run; VERIF_WATCHDOG_S overrides) dump every thread's stack to stderr, report the check as
+    broken (VIOLATION ... no-failing-input-found, naming the limit) and leave with status 1."""
+    import faulthandler
+    import threading
+    limit = float(os.environ.get('VERIF_WATCHDOG_S', '1100' if a.tier == 'quick' else '2900'))
+
+    def fire():
+        try:
+            sys.stderr.write('\n[watchdog] check %s (%s) still running after %.0f s - stacks follow\n' % (a.prop, a.tier, limit))
+            faulthandler.dump_traceback(file=sys.stderr, all_threads=True)
+            ck.broken.append('check did not terminate within %.0f s (watchdog); stacks were written to stderr' % limit)
+            ck.finish(**getattr(importlib.import_module('harness.%s' % a.prop.lower()), 'EVIDENCE', {}))
+        finally:
+            sys.stdout.flush()
+            sys.stderr.flush()
+            os._exit(1)
+
+    t = threading.Timer(limit, fire)
+    t.daemon = True
+    t.start()
+
+
 def main(argv=None):
     ap = argparse.ArgumentParser()
     ap.add_argument('prop')
@@ -26,6 +50,7 @@ def main(argv=None):
         rc = mod.replay(obj)
         sys.exit(rc)
     ck = core.Check(a.prop, a.tier, a.seed)
+    _watchdog(ck, a)
     try:
         mod.run(ck)
     except KeyboardInterrupt:
